@@ -21,7 +21,7 @@ Extraction "Model.ml"
   OrderedMap.omap_script OrderedMap.oset_script
   RulesBuilder.rules_script
   PathParams.split_path PathParams.path_parameters PathParams.path_parameters_checked PathParams.register_paths
-  AllOf.run_observe AllOf.run AllOf.observe AllOfSpec.spec_schema AllOfSpec.lib_ok AllOfSpec.compare_env AllOfSpec.env_root_level AllOfSpec.env_skeleton AllOfSpec.env_no_array_allof AllOfSpec.env_no_rpc_allof AllOfSpec.spec_tree_owner AllOfSpec.spec_fuel
+  AllOf.run_observe AllOf.run AllOf.observe AllOfSpec.spec_schema AllOfSpec.lib_ok AllOfSpec.compare_env AllOfSpec.env_root_level AllOfSpec.env_skeleton AllOfSpec.env_skeleton2 AllOfSpec.env_no_array_allof AllOfSpec.env_no_rpc_allof AllOfSpec.spec_tree_owner AllOfSpec.spec_fuel
   JsonString.json_quote JsonString.json_unquote JsonString.valid_utf8 JsonString.decode_rune
   Core.scan_forest Core.scan_forest_with Core.expand Core.expand_full Core.named Catalog.build Catalog.iid_string
   TableCheck.find_bad TableCheck.table_ok ScannerTyping.gen_typing
